@@ -95,8 +95,84 @@ func asDigestVerifiers(vs []*SpyVerifier) []cose.Verifier {
 	return out
 }
 
+// c02Siblings: several messages signed in one process from header-less
+// templates (Protected nil: the library injects alg).  What was signed for
+// one of them is what it carries on the wire, whatever the application does
+// to the headers of the others afterwards.
+func c02Siblings(r *Run) {
+	t := r.T
+	ent := NewEntropy(uint64(t.U32("entropy.seed")))
+	k := pickCheapKey(t)
+	n := 2 + t.Choose(2, "c02.sib.n")
+	untagged := t.Bool(1, 3, "c02.sib.untagged")
+	msgs := make([]*cose.Sign1Message, n)
+	spies := make([]*SpySigner, n)
+	r.Op("ISSUE", "%d header-less Sign1 messages signed with one %s signer", n, k.Name)
+	r.Outcome("siblings")
+	for i := range msgs {
+		msgs[i] = &cose.Sign1Message{Payload: t.Bytes(1+t.Choose(20, "c02.sib.payload.n"), "c02.sib.payload")}
+		spies[i] = &SpySigner{Inner: r.signerFor(k, false), Alg: cose.Algorithm(k.Alg)}
+		var err error
+		if untagged {
+			r.Lib(func() { err = (*cose.UntaggedSign1Message)(msgs[i]).Sign(ent, nil, spies[i]) })
+		} else {
+			r.Lib(func() { err = msgs[i].Sign(ent, nil, spies[i]) })
+		}
+		if err != nil || len(spies[i].Calls) != 1 {
+			r.Outcome("sibling-sign-refused")
+			return
+		}
+	}
+	// the application goes on working with one of them (recycles the holder
+	// for the next job: another content type, a kid)
+	j := t.Choose(n, "c02.sib.edit")
+	if msgs[j].Headers.Protected != nil {
+		msgs[j].Headers.Protected[cose.HeaderLabelContentType] = "application/x-edited"
+	}
+	if msgs[j].Headers.Unprotected == nil {
+		msgs[j].Headers.Unprotected = cose.UnprotectedHeader{}
+	}
+	msgs[j].Headers.Unprotected[cose.HeaderLabelKeyID] = []byte("kid")
+	r.Fired("app.edits-sibling-headers")
+	for i, m := range msgs {
+		if i == j {
+			continue
+		}
+		var wire []byte
+		var err error
+		if untagged {
+			r.Lib(func() { wire, err = (*cose.UntaggedSign1Message)(m).MarshalCBOR() })
+		} else {
+			r.Lib(func() { wire, err = m.MarshalCBOR() })
+		}
+		r.Check()
+		if err != nil {
+			r.Fail("sibling-edit-breaks-encoding", "message %d cannot be encoded after the headers of message %d were edited: %v", i, j, err)
+			return
+		}
+		kind := refcose.KSign1Tagged
+		if untagged {
+			kind = refcose.KSign1Untagged
+		}
+		pm, perr := refcose.ParseMsg(kind, wire)
+		if perr != nil {
+			return
+		}
+		want := refcose.SigStructure1(pm.ProtBstr.Data, nil, m.Payload)
+		if !bytes.Equal(spies[i].Calls[0].Content, want) {
+			r.Fail("sign-content-differs/sibling-headers-edited", "message %d was signed over a Sig_structure that is not the one of the message as emitted after the headers of message %d were edited\nsigned: %s\n  wire: %s", i, j, hexShort(spies[i].Calls[0].Content), hexShort(wire))
+			return
+		}
+	}
+	r.Probe("siblings-compared")
+}
+
 func scenarioC02(r *Run) {
 	t := r.T
+	if t.Bool(1, 14, "c02.siblings") {
+		c02Siblings(r)
+		return
+	}
 	so := SpecOpts{MaxExtra: 6, MaxSigner: 4, BigOK: bigOK(r, "c02.big")}
 	if t.Bool(1, 5, "c02.manylabels") {
 		so.MaxExtra = 40
